@@ -17,7 +17,7 @@ class C14(Prop):
     level_note = 'Trusted: Lean kernel + standard axioms; datetime arithmetic; the virtual clock patches rsocket.lease.datetime.'
     design_ref = '§5 C14'
     rule = ('sequences of LEASE frames (count 0..5, ttl 0..400 ms) and requests of the four request types at non-decreasing virtual times (incl. exactly at expiry), queue size 0/1/3, with '
-            'and without fragmentation, and reconnects in between (each connection starts without a lease), on a client that may also grant leases of its own to the peer at any moment; responder (a server, or a client that grants leases): published leases with counts and time-to-live from 1 ms to the 31-bit maximum incl. sub-second parts, whole days and more than a day; every request must be accounted for at the end (sent, refused, or still held); non-trivial = a request was held and later released, refused, or '
+            'and without fragmentation, and reconnects in between (each connection starts without a lease), on a client that may also grant leases of its own to the peer at any moment, or (a third of the histories without reconnects) on the server-side endpoint as lease-honouring requester; the number of requests held at once is compared with the configured queue size; responder (a server, or a client that grants leases): published leases with counts and time-to-live from 1 ms to the 31-bit maximum incl. sub-second parts, whole days and more than a day; every request must be accounted for at the end (sent, refused, or still held); non-trivial = a request was held and later released, refused, or '
             'sent under a lease close to expiry; distinct = distinct history')
     assumptions = ['whole-millisecond time-to-live values']
 
@@ -51,7 +51,9 @@ class C14(Prop):
                 for tm in times:
                     evs.append(['O', rng.choice([1, 5, 100]), rng.choice([1000, 60000, 10 ** 7]), tm])
                 evs.sort(key=lambda e: e[-1])
-            out.append({'kind': 'req', 'cap': rng.choice([0, 0, 1, 3]), 'frag': rng.choice([None, None, 64]), 'evs': evs, 'own': own})
+            out.append({'kind': 'req', 'cap': rng.choice([0, 0, 1, 3]), 'frag': rng.choice([None, None, 64]), 'evs': evs, 'own': own,
+                        # the lease-honouring requester may be the server-side endpoint (it asks the client and waits for the client's LEASE frames)
+                        'server': (not own) and not any(e[0] == 'X' for e in evs) and rng.random() < 0.35})
         for _ in range(n // 5):
             out.append({'kind': 'announce', 'role': rng.choice(['server', 'server', 'client']), 'leases': [[rng.choice([0, 1, 7, 2 ** 31 - 1]), rng.choice([1000, 2_500_000, 500_000, 1_500_000, 60_000_000, 999_000, 86_399_999_000, 86_400_000_000, 86_405_000_000, 172_800_000_000, 266_400_017_000,
                                                                                                    2_147_483_647_000, rng.randint(1, 2_147_483_647) * 1000])] for _ in range(rng.randint(1, 3))]})
@@ -70,15 +72,27 @@ class C14(Prop):
             def subscribe(self, s):
                 self.s = s
         own = OwnPub() if case.get('own') else None
-        R = clientrun.ClientRun(loop, n_transports=1 + nx, ka_ms=10_000_000, life_ms=100_000_000, honor_lease=True, request_queue_size=case['cap'],
-                                fragment_size_bytes=case['frag'], **({'lease_publisher': own} if own else {}))
-        c = R.build()
-        await c.connect()
-        await loop.settle()
+        if case.get('server'):
+            from rsocket.rsocket_server import RSocketServer
+            from harness import simnet, engine
+
+            class R:
+                transports = [simnet.ScriptedTransport(loop)]
+            c = RSocketServer(R.transports[0], honor_lease=True, request_queue_size=case['cap'], fragment_size_bytes=case['frag'])
+            await loop.settle()
+            R.transports[0].deliver(engine.build_frame({'ty': 'SETUP', 'sid': 0, 'data': [1], 'complete': True}).serialize())
+            await loop.settle()
+        else:
+            R = clientrun.ClientRun(loop, n_transports=1 + nx, ka_ms=10_000_000, life_ms=100_000_000, honor_lease=True, request_queue_size=case['cap'],
+                                    fragment_size_bytes=case['frag'], **({'lease_publisher': own} if own else {}))
+            c = R.build()
+            await c.connect()
+            await loop.settle()
         ti = 0
         t = R.transports[0]
         tag = 0
         rejected, model = [], []
+        max_held = 0
 
         class S:
             def on_subscribe(self, s): pass
@@ -123,6 +137,7 @@ class C14(Prop):
                 except QueueFull:
                     rejected.append(tag)
             await loop.settle()
+            max_held = max(max_held, c._request_queue.qsize())
         sent = []
         for tr in R.transports:
             for (tm, dump, fr, raw) in tr.sent:
@@ -132,7 +147,7 @@ class C14(Prop):
             await c.close()
         except Exception:
             pass
-        return {'sent': sent, 'rejected': rejected, 'model': model, 'held': c._request_queue.qsize() if hasattr(c, '_request_queue') else None}
+        return {'sent': sent, 'rejected': rejected, 'model': model, 'held': c._request_queue.qsize() if hasattr(c, '_request_queue') else None, 'max_held': max_held}
 
     async def _announce(self, loop, case):
         from rsocket.lease import DefinedLease
@@ -228,6 +243,9 @@ class C14(Prop):
                 fails.append({'signature': 'more-requests-than-granted', 'what': 'lease of %d at %d, %d requests sent under it' % (n, at, k)})
         if case['cap'] == 0 and obs['rejected']:
             fails.append({'signature': 'request-refused-with-unbounded-queue', 'what': str(obs['rejected'])})
+        if case['cap'] and obs.get('max_held', 0) > case['cap']:
+            fails.append({'signature': 'more-requests-retained-than-configured', 'what': 'request_queue_size %d (%s-side requester), %d requests held at once' % (
+                case['cap'], 'server' if case.get('server') else 'client', obs['max_held'])})
         # "retained ... and released when a lease arrives": every request is on the wire, refused, or still held - none vanishes
         if not cuts:
             asked = len([e for e in case['evs'] if e[0] == 'R'])
@@ -247,6 +265,7 @@ class C14(Prop):
     def stats(self, case, obs):
         yield 'kind=' + case['kind']
         if case['kind'] == 'req':
+            yield 'requester-role=' + ('server' if case.get('server') else 'client')
             yield 'cap=%d' % case['cap']
             if obs['rejected']:
                 yield 'queue-full'
